@@ -76,7 +76,28 @@ class ClassGen:
                 assigns.append(ExprS(Assign(Prop(Self(), 'link') if r.random() < 0.5 else At('link'), Nil())))
                 if 'link' not in info['fields']:
                     info['fields'].append('link')
-            if r.random() < 0.3 and assigns:
+            # closures and nested functions that capture self inside the initializer (self then lives in a box)
+            if r.random() < 0.35:
+                plain0 = [x for x in info['fields'] if x in FIELDS]
+                kind = r.choice(['field_closure', 'unused_closure', 'nested_fn', 'closure_then_return'])
+                self.tags.add('init_captures_self:' + kind)
+                if kind == 'field_closure' or not plain0:
+                    body_e = (Bin('+', Str(name + '.selfcb:'), Interp([Prop(Self(), r.choice(plain0))])) if plain0
+                              else Str(name + '.selfcb'))
+                    assigns.append(ExprS(Assign(Prop(Self(), 'selfcb'), Lambda([], body_e, True))))
+                    if 'selfcb' not in info['fields']:
+                        info['fields'].append('selfcb')
+                    info['selfcb'] = True
+                elif kind == 'unused_closure':
+                    assigns.insert(r.randint(0, len(assigns)), Let('keep', Lambda([], Self(), True)))
+                elif kind == 'nested_fn':
+                    f0 = r.choice(plain0)
+                    assigns.append(Fn('helper', [], [Return(Interp(['h:', Prop(Self(), f0)]))]))
+                    assigns.append(ExprS(Assign(Prop(Self(), f0), Call(Var('helper'), []))))
+                else:
+                    assigns.append(Let('keep', Lambda([], At(r.choice(plain0)), True)))
+                    assigns.append(Return(None))
+            if r.random() < 0.3 and assigns and assigns[0].k == 'expr':
                 # assignment nested in a block still declares the field
                 assigns = [If(Bool(True), assigns[:1])] + assigns[1:]
                 self.tags.add('field_in_block')
@@ -105,6 +126,13 @@ class ClassGen:
             for p in parts[1:]:
                 e = Bin('+', e, p)
             body = [Return(e)] if r.random() < 0.5 else [Implicit(e)]
+            if r.random() < 0.2:
+                # the whole result computed by a lambda / nested function that captures self
+                self.tags.add('method_captures_self')
+                if r.random() < 0.5:
+                    body = [Let('g', Lambda([], e, True)), Return(Call(Var('g'), []))]
+                else:
+                    body = [Fn('inner', [], [Return(e)]), Return(Call(Var('inner'), []))]
             methods.append(Fn(m, [], body))
             info['methods'][m] = name
         if 'link' in info['fields']:
@@ -203,6 +231,9 @@ def case(rng):
             stmts.append(guarded_print([Call(Prop(Var(oname), 'peek'), [])], 'peek %s->%s' % (oname, other)))
             stmts.append(guarded_print([Call(Prop(Var(oname), 'poke'), [Str(g.tag())])], 'poke %s->%s' % (oname, other)))
             stmts.append(guarded_print([Call(Prop(Var(oname), 'peek'), [])], 'peek2 %s->%s' % (oname, other)))
+    for oname, info in objs:
+        if info.get('selfcb'):
+            stmts.append(guarded_print([Call(Prop(Var(oname), 'selfcb'), [])], 'selfcb ' + oname))
     for oname, info in objs:
         if 'viaSuper' in info['methods'] and r.random() < 0.7:
             stmts.append(guarded_print([Call(Prop(Var(oname), 'viaSuper'), [])], 'viaSuper ' + oname))
